@@ -33,6 +33,17 @@ def const_eval(P, module, node, func=None, _depth=0, env=None):
             if len(ds) == 1 and not augs and not loops:
                 return const_eval(P, module, ds[0].value, func, _depth + 1, env)
         return None
+    if isinstance(node, ast.Subscript) and isinstance(node.slice, ast.Constant) and isinstance(node.slice.value, int) and \
+            isinstance(node.value, ast.Name) and func is not None:
+        # element of a tuple held in a local that is assigned once from a display
+        ds = [n for n in ast.walk(func.node) if isinstance(n, ast.Assign) and len(n.targets) == 1 and
+              isinstance(n.targets[0], ast.Name) and n.targets[0].id == node.value.id]
+        others = [n for n in ast.walk(func.node) if isinstance(n, (ast.AugAssign, ast.For, ast.comprehension)) and
+                  node.value.id in U(n.target)]
+        if len(ds) == 1 and not others and isinstance(ds[0].value, (ast.Tuple, ast.List)) and \
+                -len(ds[0].value.elts) <= node.slice.value < len(ds[0].value.elts):
+            return const_eval(P, module, ds[0].value.elts[node.slice.value], func, _depth + 1, env)
+        return None
     if isinstance(node, ast.BinOp):
         a, b = const_eval(P, module, node.left, func, _depth + 1, env), const_eval(P, module, node.right, func, _depth + 1, env)
         if a is None or b is None:
@@ -389,4 +400,52 @@ def spec_type(row):
         return ('little', 'int', 4)
     if t == 'float64':
         return ('little', 'float', 8)
+    return None
+
+
+# ---------------------------------------------------------------------------
+_TF_MAP = None
+
+
+def tracefield_map():
+    """{name: byte position} of segyio.TraceField, read from the installed segyio source (parsed, not imported)."""
+    global _TF_MAP
+    if _TF_MAP is None:
+        _TF_MAP = {}
+        import sys
+        bases = ['/venv/lib/python3.12/site-packages', '/venv/lib/python3.11/site-packages'] + [p for p in sys.path if p.endswith('site-packages')]
+        for base in bases:
+            p = os.path.join(base, 'segyio', 'tracefield.py')
+            if os.path.exists(p):
+                t = ast.parse(open(p).read())
+                for c in ast.walk(t):
+                    if isinstance(c, ast.ClassDef) and c.name == 'TraceField':
+                        for st in c.body:
+                            if isinstance(st, ast.Assign) and isinstance(st.value, ast.Constant) and isinstance(st.value.value, int) \
+                                    and isinstance(st.targets[0], ast.Name):
+                                _TF_MAP[st.targets[0].id] = st.value.value
+                break
+    return _TF_MAP
+
+
+def tracefield_code(P, f, e, depth=0):
+    """byte position named by a header-word expression: an integer literal, segyio.TraceField.<NAME> (any dotted
+    spelling), TraceField(<code>), or a local / module constant bound once to one of those.  None if unknown."""
+    if e is None or depth > 4:
+        return None
+    if isinstance(e, ast.Constant) and isinstance(e.value, int) and not isinstance(e.value, bool):
+        return e.value
+    if isinstance(e, ast.Attribute) and isinstance(e.value, (ast.Attribute, ast.Name)) and U(e.value).split('.')[-1] == 'TraceField':
+        return tracefield_map().get(e.attr)
+    if isinstance(e, ast.Call) and U(e.func).split('.')[-1] == 'TraceField' and len(e.args) == 1:
+        return tracefield_code(P, f, e.args[0], depth + 1)
+    if isinstance(e, ast.Name):
+        if f is not None and e.id not in f.params:
+            ds = [n for n in ast.walk(f.node) if isinstance(n, ast.Assign) and len(n.targets) == 1 and U(n.targets[0]) == e.id]
+            if len(ds) == 1:
+                return tracefield_code(P, f, ds[0].value, depth + 1)
+        if f is not None:
+            node = f.module.const_nodes.get(e.id)
+            if node is not None:
+                return tracefield_code(P, None, node, depth + 1)
     return None
